@@ -11,6 +11,9 @@
 //                                plus the interval() generator: ivl <dur> <now> / next <now> / stop (std::stop_token)
 //   case <n> run <t0>            single-thread start(awaitable) under virtual time, scripted sleeper coroutines (co ... / go)
 //   case <n> thr | pool <k>      worker in a real std::thread / on a real thread_pool, virtual clock driven by `adv <t>`
+//   case <n> thrstep | poolstep <k>  same, but every acquisition of the scheduler mutex by the worker is a stall point:
+//                                `w` lets the worker run one lock region, public calls run in between, `free` ends the
+//                                stepping; every line reports the worker's state (w=lock | parked:<deadline> | gone)
 //   case <n> stoprace <tp>       ~scheduler() forced between the worker's stop check and its wait_until
 #include <algorithm>
 #include <atomic>
